@@ -3,6 +3,7 @@ package props
 import (
 	"bytes"
 	"fmt"
+	"math/rand/v2"
 	"strings"
 	"time"
 
@@ -30,25 +31,51 @@ type C01Cmd struct {
 // C01 scenario: a generic driver session of 1..6 commands against the echo device.
 type C01 struct {
 	Common
-	ReadDelayUS int64          `json:"read_delay_us"`
-	ReadSize    int            `json:"read_size"`
-	SearchDepth int            `json:"search_depth"`
-	NoStrip     bool           `json:"no_strip"`
-	Exact       bool           `json:"exact"`
-	Multi       bool           `json:"multi"`             // one SendCommands call instead of n SendCommand calls
-	Network     bool           `json:"network,omitempty"` // network driver with a one-level privilege tree
-	Prompt      string         `json:"prompt"`
-	Banner      []peer.Tok     `json:"banner"`
-	Cmds        []C01Cmd       `json:"cmds"`
-	Noise       []string       `json:"noise"`
+	ReadDelayUS int64      `json:"read_delay_us"`
+	ReadSize    int        `json:"read_size"`
+	SearchDepth int        `json:"search_depth"`
+	NoStrip     bool       `json:"no_strip"`
+	Exact       bool       `json:"exact"`
+	Multi       bool       `json:"multi"`             // one SendCommands call instead of n SendCommand calls
+	Network     bool       `json:"network,omitempty"` // network driver with a one-level privilege tree
+	Prompt      string     `json:"prompt"`
+	Banner      []peer.Tok `json:"banner"`
+	Cmds        []C01Cmd   `json:"cmds"`
+	Noise       []string   `json:"noise"`
 	// SlowEcho: the device takes SlowEchoUS (more than half of the operation timeout, less than
 	// all of it) before it starts echoing command number SlowEchoAt
-	SlowEchoAt int   `json:"slow_echo_at,omitempty"`
-	SlowEchoUS int64 `json:"slow_echo_us,omitempty"`
-	NoisePct    int            `json:"noise_pct"`
-	NL          string         `json:"nl"`
-	DevSeed     uint64         `json:"dev_seed"`
-	Net         simnet.NetPlan `json:"net"`
+	SlowEchoAt int            `json:"slow_echo_at,omitempty"`
+	SlowEchoUS int64          `json:"slow_echo_us,omitempty"`
+	NoisePct   int            `json:"noise_pct"`
+	NL         string         `json:"nl"`
+	DevSeed    uint64         `json:"dev_seed"`
+	Net        simnet.NetPlan `json:"net"`
+	// CutEnum: this base scenario is followed by its cut enumeration (one sub-run per read boundary
+	// position up to CutTo, the stream length its own run measured)
+	CutEnum bool `json:"cut_enum,omitempty"`
+	CutTo   int  `json:"cut_to,omitempty"`
+}
+
+func expandC01(base Scenario, res *Result, tier string) []Scenario {
+	b := base.(*C01)
+	if !b.CutEnum || b.CutTo <= 0 || len(res.Violations) > 0 || res.HarnessError != "" || res.Inconclusive != "" {
+		return nil
+	}
+	r := rand.New(rand.NewPCG(b.SchedSeed, 0xc01))
+	var out []Scenario
+	for _, cl := range cutLists(1, b.CutTo, tier, r, 200) {
+		v := *b
+		v.CutEnum = false
+		v.Net.SegMode, v.Net.CutAt, v.Net.LatMode = "cuts", cl, "zero"
+		if v.ReadSize < 8192 {
+			v.ReadSize = 8192 // a small read size would cut everywhere and hide the chosen cut
+		}
+		v.Class = b.Class + "/cut"
+		v.SchedSeed = r.Uint64()
+		out = append(out, &v)
+	}
+
+	return out
 }
 
 func genC01(seed uint64, run int, tier string) Scenario {
@@ -155,6 +182,7 @@ func genC01(seed uint64, run int, tier string) Scenario {
 	if sc.Network {
 		sc.Class = "network"
 	}
+	sc.CutEnum = sc.SlowEchoUS == 0 && pickCutEnum(run, 8)
 
 	return sc
 }
@@ -258,6 +286,12 @@ func runC01(env *Env, s Scenario) {
 	out := env.K.Run(done, time.Duration(len(sc.Cmds)+2)*timeout, 20*rd+time.Millisecond)
 	env.Finish(out)
 	env.AtEnd = append(env.AtEnd, tr.Kill)
+	if sc.CutEnum {
+		sc.CutTo = tr.Emitted()
+	}
+	if len(sc.Net.CutAt) > 0 {
+		env.Fault("cut-enum", 1)
+	}
 	env.Res.Shape = fmt.Sprintf("n=%d strip=%v exact=%v multi=%v noise=%d seg=%s lat=%s rs=%d sd=%d rd=%d", len(sc.Cmds), !sc.NoStrip, sc.Exact, sc.Multi, sc.NoisePct, sc.Net.SegMode, sc.Net.LatMode, sc.ReadSize, sc.SearchDepth, sc.ReadDelayUS)
 	env.Res.Nontrivial = out.Ties > 0 || sc.Net.SegMode != "whole" || sc.Net.LatMode != "zero"
 	env.Fault("seg", len(tr.Reads))
@@ -397,9 +431,10 @@ func init() {
 			QuickRuns: 4000,
 			ThoroughS: 600,
 		},
-		Gen: genC01,
-		New: func() Scenario { return &C01{} },
-		Run: runC01,
+		Gen:    genC01,
+		New:    func() Scenario { return &C01{} },
+		Run:    runC01,
+		Expand: expandC01,
 		Shrink: func(s Scenario) []Scenario {
 			sc := s.(*C01)
 			var out []Scenario
